@@ -53,6 +53,9 @@ _KINDS = {"C05": ["wrap", "c05"], "C09": ["c09"], "C13": ["c13"], "C14": ["c14"]
           "C18": ["dedent", "c18"], "C19": ["indent"], "C06": ["frag"], "C07": ["frag", "wrap"], "C03": ["frag", "wrap"]}
 for _k, _v in _KINDS.items():
     PROPS[_k]["replay_kinds"] = _v
+# step-level validation of wrap() against the MC_Wrap machine (hooks): every run for C01 / C07, thorough for the rest of the family
+for _k, _v in {"C01": "quick", "C07": "quick", "C02": "thorough", "C03": "thorough", "C05": "thorough", "C08": "thorough", "C09": "thorough"}.items():
+    PROPS[_k]["steps"] = _v
 for _p in PROPS.values():
     _p.setdefault("dev", PINNED)
     _p.setdefault("mc", [])
